@@ -4,6 +4,7 @@
 import collections
 
 import numpy as np
+import dataiter as di
 from hypothesis import strategies as st
 
 from . import build, gen, model
@@ -25,6 +26,9 @@ KINDS = ["f", "f", "i", "i", "i", "b", "s", "s", "u", "d", "t", "tm", "ts", "td"
 
 @st.composite
 def _plan(draw, max_len):
+    if draw(st.integers(0, 29)) == 0:
+        pool = [1, "1", True, "True", 1.5, "1.5", None, "a", 2, "2", "None", 0, "0"]
+        return {"kind": "om", "vals": [draw(st.sampled_from(pool)) for _ in range(draw(st.integers(0, 8)))]}
     kind = draw(st.sampled_from(KINDS))
     n = draw(st.one_of(st.sampled_from([0, 1, 2, 3]), st.integers(0, max_len)))
     if kind == "i" and draw(st.integers(0, 9 if max_len > 10 else 24)) == 0:
@@ -61,6 +65,8 @@ def strategy(tier):
 
 def nontrivial(plan):
     kind, vals = plan["kind"], plan["vals"]
+    if kind == "om":
+        return len({str(x) for x in vals}) < len(vals) and len(vals) >= 2
     cs = [build.pcell(kind, v) for v in vals]
     n = len(cs)
     if n == 0:
@@ -77,7 +83,32 @@ def _multiset(cs):
     return collections.Counter(repr(c) for c in cs)
 
 
+def _check_mixed_objects(plan, ctx):
+    """object vector of values of several types whose texts may coincide (1 and "1", True and "True"): the library
+    orders objects by their text; whatever order that gives, sort is total - a permutation, missing values last"""
+    vals = plan["vals"]
+    a = np.empty(len(vals), dtype=object)
+    for j, x in enumerate(vals):
+        a[j] = x
+    v = di.Vector.fast(a, object)
+    ctx.cls("kind_mixed_objects")
+    for d in (1, -1):
+        out = ctx.call(f"sort(dir={d})", lambda: v.sort(dir=d))
+        got = list(np.asarray(out))
+        key = lambda x: (type(x).__name__, repr(x))
+        if sorted(map(key, got)) != sorted(map(key, vals)):
+            raise Violation("sort of an object vector is not a permutation of its elements", got=got, input=vals)
+        k = sum(x is not None for x in vals)
+        if any(x is None for x in got[:k]):
+            raise Violation("sort of an object vector does not place missing values last", got=got, dir=d)
+        texts = [str(x) for x in got[:k]]
+        if texts != sorted(texts, reverse=d < 0):
+            raise Violation("sort of an object vector is not ordered by the elements' text", got=got, dir=d)
+
+
 def check(plan, ctx):
+    if plan["kind"] == "om":
+        return _check_mixed_objects(plan, ctx)
     kind, vals = plan["kind"], list(plan["vals"])
     v = build.vec(kind, vals)
     if plan.get("layout") == "strided" and vals:
